@@ -746,6 +746,22 @@ def extract_guards(src: Path) -> str:
                        "   -- protocol_send: `stream.send_all` runs inside a shielded CancelScope")
     except Exception as e:
         fail("blockedWriteFlags", str(e))
+    # C08 (F114): trio's EventWrapper.clear() - a trio.Event cannot be cleared, it is replaced; is it replaced only when it is set
+    # (an unset event may have tasks waiting on it: replacing it orphans them)?
+    try:
+        wc_t = parse(src / "trio/worker_context.py")
+        clr = find_def(wc_t, "EventWrapper", "clear")
+        if clr is None:
+            fail("trioClearGuarded", "trio EventWrapper.clear not found")
+        else:
+            body = [st for st in clr.body if not (isinstance(st, ast.Expr) and isinstance(st.value, ast.Constant))]  # type: ignore
+            replaces_anywhere = any(isinstance(n, ast.Assign) and ast.unparse(n.targets[0]) == "self._event" for n in ast.walk(clr))  # type: ignore
+            guarded = (len(body) == 1 and isinstance(body[0], ast.If) and not body[0].orelse and ast.unparse(body[0].test) == "self._event.is_set()"
+                       and all(isinstance(x, ast.Assign) and ast.unparse(x.targets[0]) == "self._event" for x in body[0].body))
+            out.append(f"def trioClearGuarded : Bool := {'true' if (guarded or not replaces_anywhere) else 'false'}"
+                       "   -- trio EventWrapper.clear: the event object is replaced only `if self._event.is_set()` (or never)")
+    except Exception as e:
+        fail("trioClearGuarded", str(e))
     # C06: `self.request_complete` belongs to the request in progress - reset when a new h11.Request arrives (before its stream
     # exists), set at its EndOfMessage, assigned nowhere else; and HTTPStream.app_send hands the validated headers of
     # http.response.start to the protocol as they are (h11 decides about keep-alive from the application's `connection: close`).
